@@ -1173,6 +1173,41 @@ def nsecbits(ctx: Any) -> List[Ob]:
             v = st.value
             mask_ok = prog.try_fold(w.module, v.left) == (True, 0x80) and isinstance(v.right, ast.BinOp) and isinstance(v.right.op, ast.Mod) and prog.try_fold(w.module, v.right.right) == (True, 8)
     obs.append(ob(R, w, 'byte = rdtype // 8 ; bitmap[byte] |= 0x80 >> rdtype % 8', 'writer: type t is bit (0x80 >> t mod 8) of byte t div 8', byte_ok and mask_ok))
+    # the window that is written: 32 bytes of zeroes to start with, as many of them emitted as the highest type needs (its byte
+    # index + 1 -- the types are kept sorted by the constructor, so the last one seen is the highest), types above 255 refused
+    from .common import local_defs as _ldn
+
+    wdefs = _ldn(w)
+    bm = [n_ for n_, vs in wdefs.items() if any(v is not None and isinstance(v, ast.Call) and norm(v.func) == 'bytearray' for v in vs)]
+    size_ok = False
+    if len(bm) == 1:
+        v0 = [v for v in wdefs[bm[0]] if v is not None][0]
+        okf, folded = prog.try_fold(w.module, v0.args[0]) if v0.args else (False, None)
+        size_ok = okf and folded == bytes(32)
+    obs.append(ob(R, w, f'{bm[0] if bm else "bitmap"} = bytearray(32 zero bytes)', 'window 0 starts as 32 zero bytes (types 0..255)', size_ok))
+    byte_v = [st.targets[0].id for st in walk_local_ordered(w.node) if isinstance(st, ast.Assign) and isinstance(st.targets[0], ast.Name) and isinstance(st.value, ast.BinOp) and isinstance(st.value.op, ast.FloorDiv)]
+    tot = [st for st in walk_local_ordered(w.node) if isinstance(st, ast.Assign) and isinstance(st.targets[0], ast.Name) and byte_v and any(isinstance(x, ast.Name) and x.id == byte_v[0] for x in ast.walk(st.value)) and st.targets[0].id != byte_v[0]]
+    tot_ok = False
+    if len(tot) == 1:
+        try:
+            tot_ok = lf.poly(prog, w.module, tot[0].value, lambda x: 'B' if isinstance(x, ast.Name) and x.id == byte_v[0] else None) == lf.parse_poly('B + 1')
+        except lf.NotLinear:
+            tot_ok = False
+    sl = [x for x in ast.walk(w.node) if isinstance(x, ast.Subscript) and isinstance(x.slice, ast.Slice) and bm and norm(x.value) == bm[0]]
+    sl_ok = len(sl) == 1 and tot and (sl[0].slice.lower is None or prog.try_fold(w.module, sl[0].slice.lower) == (True, 0)) and sl[0].slice.upper is not None and norm(sl[0].slice.upper) == tot[0].targets[0].id
+    obs.append(ob(R, w, tot[0] if tot else 'total_octets = byte + 1', 'the bitmap emitted is the first (highest byte index + 1) bytes of the window', tot_ok and bool(sl_ok)))
+    ctor = prog.cls('zeroconf._dns.DNSNsec').methods['__init__']
+    srt = [st for st in walk_local_ordered(ctor.node) if isinstance(st, ast.Assign) and self_attr(st.targets[0], ctor.params[0]) == 'rdtypes']
+    obs.append(ob(R, ctor, srt[0] if srt else 'self.rdtypes = sorted(rdtypes)', 'the types are kept in ascending order (the writer sizes the bitmap by the last one)', len(srt) == 1 and isinstance(srt[0].value, ast.Call) and norm(srt[0].value.func) == 'sorted'))
+    lim = [t for t in walk_local_ordered(w.node) if isinstance(t, ast.If) and any(isinstance(x, ast.Raise) for x in t.body) and isinstance(t.test, ast.Compare) and any(isinstance(x, ast.Name) for x in ast.walk(t.test)) and t in [y for lp in walk_local_ordered(w.node) if isinstance(lp, ast.For) for y in lp.body]]
+    lim_ok = False
+    if len(lim) == 1:
+        try:
+            pl, op = lf.comparison(prog, w.module, lim[0].test, lambda x: 'T' if isinstance(x, ast.Name) else None)
+            lim_ok = lf.same_cmp((pl, op), lf.parse_cmp('255 - T < 0'))
+        except lf.NotLinear:
+            lim_ok = False
+    obs.append(ob(R, w, lim[0].test if lim else 'if rdtype > 255: raise', 'exactly the types that do not fit window 0 (above 255) are refused', lim_ok))
     obs.append(nsec_reader_obligation(ctx, R))
     return obs
 
